@@ -279,18 +279,32 @@ func ruleRWho(c *Ctx) {
 						continue
 					}
 					origin := ""
-					switch o := a.(type) {
-					case *ssa.Call:
-						if o.Call.IsInvoke() {
-							origin = o.Call.Method.Name()
-						} else if sc := o.Call.StaticCallee(); sc != nil {
-							origin = sc.Name()
+					var originOf func(v ssa.Value, depth int) string
+					originOf = func(v ssa.Value, depth int) string {
+						switch o := v.(type) {
+						case *ssa.Call:
+							if o.Call.IsInvoke() {
+								return o.Call.Method.Name()
+							} else if sc := o.Call.StaticCallee(); sc != nil {
+								return sc.Name()
+							}
+						case *ssa.FieldAddr:
+							return addrPath(o)
+						case *ssa.Parameter:
+							return "param"
+						case *ssa.Phi:
+							// a body chosen at run time: it is the Content-Length body if any alternative is
+							if depth < 4 {
+								for _, e := range o.Edges {
+									if og := originOf(e, depth+1); og == "GetCLen" || strings.HasSuffix(og, ".CLen") {
+										return og
+									}
+								}
+							}
 						}
-					case *ssa.FieldAddr:
-						origin = addrPath(o)
-					case *ssa.Parameter:
-						origin = "param"
+						return ""
 					}
+					origin = originOf(a, 0)
 					isCLen := origin == "GetCLen" || strings.HasSuffix(origin, ".CLen")
 					if !isCLen {
 						continue
